@@ -20,7 +20,9 @@ RULE = ('A case is one generated file (distinct by its bytes).  Random files: st
         '(explicit/indirect, type 0..255, payload 0..several visible records, ~12% encrypted), random visible-record capacity '
         '20..16384 biased to 20..200, random segment cuts incl. zero-payload middle segments, optional pad bytes / checksum / '
         'trailing length per record, encrypted segments optionally carrying the padding bit; plus files whose first visible record '
-        'is exactly 16384 bytes.  Non-trivial = at least one record in >= 2 segments or >= 2 visible records, or any trailer option '
+        'is exactly 16384 bytes, one file of 1000..2500 records and one record of 65536..140000 bytes per shard.  Histories: other public '
+        'iterators of the same reader before / between passes, abandoned passes, records inspected only after the pass has ended, the '
+        'stream handed over at a non-zero position or as an open file object, two readers on two files stepped alternately.  Non-trivial = at least one record in >= 2 segments or >= 2 visible records, or any trailer option '
         '(pad, checksum, trailing length).  Enumerated sub-spaces (distinct by construction): every cut of one payload (see '
         'enumerated_subspaces), pairs of payloads, encrypted cuts, each x 8 trailer combinations x 3 visible-record packings; '
         'the label sweep = every sequence number 1..9999 and every maximum record length 20..16384 in both paddings and every '
@@ -40,7 +42,7 @@ MECHANISMS = [
     (_PF, 'StorageUnitLabel.__init__'),
     (_PF, 'LogicalRecordSegmentHeader.logical_data_length'),
 ]
-REQUIRED_MONITORS = ['records_vs_model', 'label_vs_model', 'label_sweep', 'reiteration', 'path_vs_stream',
+REQUIRED_MONITORS = ['records_vs_model', 'label_vs_model', 'label_sweep', 'reiteration', 'path_vs_stream', 'lockstep_two_readers',
                      'contract:FileLogicalData.invariant', 'contract:FileLogicalData.add_bytes', 'contract:FileLogicalData.seal',
                      'contract:FileRead.seek_next_header', 'contract:FileRead.read_full_logical_data']
 MIN_NONTRIVIAL = {'quick': 20000, 'thorough': 1200000}
@@ -157,7 +159,18 @@ class Checker:
         return {'file': data, 'file_len': len(data), 'how': how, 'layout': model.layout,
                 'label': model.sul.as_bytes(), 'records': [r.describe() for r in model.records[:12]]}
 
-    def read_events(self, fr, limit=None):
+    def read_events(self, fr, limit=None, late=False):
+        """late: keep the yielded objects and look at them only after the pass has ended (what ``list(iter_logical_records())``
+        gives a caller): a record must not change once it has been yielded."""
+        if late:
+            held = []
+            for fld in fr.iter_logical_records():
+                held.append(fld)
+                if limit is not None and len(held) >= limit:
+                    break
+            self.rec.add('events_inspected_after_the_pass', len(held))
+            return [(fld.lr_is_eflr, fld.lr_type, fld.logical_data.bytes, fld.lr_is_encrypted,
+                     fld.position.vr_position, fld.position.lrsh_position) for fld in held]
         out = []
         for fld in fr.iter_logical_records():
             out.append((fld.lr_is_eflr, fld.lr_type, fld.logical_data.bytes, fld.lr_is_encrypted,
@@ -206,7 +219,8 @@ class Checker:
     @staticmethod
     def random_other_op(rng, model):
         nvr = len(model.vrs)
-        kind = rng.choice(['vrs_full', 'vrs_full', 'vrs_partial', 'positions_full', 'positions_partial', 'lrsh_of_vr', 'lrsh_fragments_of_vr'])
+        kind = rng.choice(['vrs_full', 'vrs_full', 'vrs_partial', 'positions_full', 'positions_partial', 'lrsh_of_vr', 'lrsh_fragments_of_vr',
+                           'validate_positions'])
         if kind == 'vrs_partial':
             return (kind, rng.randrange(1, nvr + 1))
         if kind == 'positions_partial':
@@ -233,6 +247,8 @@ class Checker:
             for i, _ in enumerate(fr.iter_logical_record_positions()):
                 if i + 1 >= arg:
                     break
+        elif kind == 'validate_positions':
+            fr.validate_positions()         # raises on a conformant file only if the reader is wrong: reported as 'raised' by the caller
         else:
             vrs = list(fr.iter_visible_records())
             vr = vrs[arg % len(vrs)]
@@ -240,10 +256,23 @@ class Checker:
             for _ in it:
                 pass
 
-    def check_file(self, data, model, how, classes=(), extra_history=False, via_path=False, sample=None):
-        """Run the real sequential reader over one generated file and compare with the model."""
+    def check_file(self, data, model, how, classes=(), extra_history=False, via_path=False, sample=None, late=False, start_pos=None):
+        """Run the real sequential reader over one generated file and compare with the model.
+        late: records are inspected after the pass.  start_pos: the stream is handed over positioned there (not at 0)."""
         rec, File = self.rec, self.File
         cl = list(classes) + model.classes()
+        if late:
+            cl.append('records-inspected-after-the-pass')
+            how += '+late'
+        if start_pos is not None:
+            cl.append('stream-handed-over-at-non-zero-position')
+            how += '+stream@%d' % start_pos
+        if len(model.records) >= 1000:
+            cl.append('records>=1000')
+        if any(len(r.lr.payload) >= 65536 for r in model.records):
+            cl.append('payload>=65536')
+        if any(len(r.vr_ranges) >= 5 for r in model.records):
+            cl.append('record-in-5+visible-records')
         if any(length == 16384 for _, length in model.vrs):
             cl.append('visible-record-length-16384')
         if any(length == 20 for _, length in model.vrs):
@@ -258,14 +287,17 @@ class Checker:
         pre_ops = [self.random_other_op(rng, model) for _ in range(rng.choice([0, 1, 1, 2]))] if extra_history else []
         mid_ops = [self.random_other_op(rng, model) for _ in range(rng.choice([0, 1, 2]))] if extra_history else []
         try:
-            fr = File.FileRead(io.BytesIO(data))
+            stream = io.BytesIO(data)
+            if start_pos is not None:
+                stream.seek(start_pos)
+            fr = File.FileRead(stream)
             with fr:
                 self.compare_label(fr.sul, model.sul, data, model, how)
                 for op in pre_ops:
                     self.run_other_op(fr, op)
                 if pre_ops:
                     how = how + '+pre-history%s' % pre_ops
-                events = self.read_events(fr)
+                events = self.read_events(fr, late=late)
                 ok = self.compare_events(events, model, data, how)
                 rec.add('iterator_events', len(events))
                 rec.maxi('max_records_in_one_file', len(events))
@@ -277,7 +309,7 @@ class Checker:
                     part = self.read_events(fr, limit=k) if k else []
                     for op in mid_ops:
                         self.run_other_op(fr, op)
-                    again = self.read_events(fr)
+                    again = self.read_events(fr, late=late)
                     rec.mon('reiteration')
                     rec.add('reiteration_events', len(part) + len(again))
                     if [e[:4] for e in part] != [e[:4] for e in events[:k]]:
@@ -300,9 +332,18 @@ class Checker:
                 f.write(data)
             rec.mon('path_vs_stream')
             try:
-                with File.FileRead(path) as fr2:
-                    ev2 = self.read_events(fr2)
-                self.compare_events(ev2, model, data, how + '+path', monitor='path_vs_stream')
+                if self.n_path % 2:
+                    with File.FileRead(path) as fr2:
+                        ev2 = self.read_events(fr2)
+                    self.compare_events(ev2, model, data, how + '+path', monitor='path_vs_stream')
+                else:
+                    # an open binary file object (buffered reader) instead of a path, handed over somewhere in the file
+                    rec.add('open_file_objects_read')
+                    with open(path, 'rb') as fobj:
+                        fobj.seek(self.ctx.rng.randrange(0, len(data) + 1))
+                        with File.FileRead(fobj) as fr2:
+                            ev2 = self.read_events(fr2)
+                    self.compare_events(ev2, model, data, how + '+open-file-object', monitor='path_vs_stream')
             except Exception as e:
                 self.violation('path_vs_stream', 'raised', 'reading the same bytes from a path raised %s: %s' % (type(e).__name__, e),
                                self.base_witness(data, model, how), exc=e)
@@ -332,14 +373,80 @@ class Checker:
 # --------------------------------------------------------------------------------------------- workloads
 def random_files(ctx, ck, rng, n):
     from tdv.gen import dlis
+    prev = None
     for k in range(n):
         lay = dlis.random_layout(rng)
         lay['p_enc_padbit'] = rng.choice([0.0, 0.3, 1.0])
         lrs = dlis.random_records(rng, vr_cap=lay['vr_cap'])
         data, model = dlis.write_file_safe(rng, lrs, layout=lay)
-        ck.check_file(data, model, 'random', extra_history=(k % 3 == 0), via_path=(k % 8 == 0),
+        ck.check_file(data, model, 'random', extra_history=(k % 3 == 0), via_path=(k % 8 == 0), late=(k % 4 == 1),
+                      start_pos=rng.randrange(1, len(data) + 2) if k % 5 == 2 else None,
                       sample={'layout': lay, 'label': model.sul.as_bytes(), 'file_len': len(data),
                               'records': [r.describe() for r in model.records[:3]]} if k < 2 else None)
+        if k % 6 == 5 and prev is not None:
+            lockstep(ctx, ck, rng, prev, (data, model))
+        prev = (data, model)
+
+
+def lockstep(ctx, ck, rng, a, b):
+    """Two readers open at the same time on two different files, stepped alternately (a caller merging two files): what one reader
+    yields must not depend on the other reader's progress."""
+    rec, File = ctx.rec, ck.File
+    (da, ma), (db, mb) = a, b
+    rec.mon('lockstep_two_readers')
+    evs = ([], [])
+    try:
+        with File.FileRead(io.BytesIO(da)) as fa, File.FileRead(io.BytesIO(db)) as fb:
+            its = [fa.iter_logical_records(), fb.iter_logical_records()]
+            live = [True, True]
+            while any(live):
+                k = rng.randrange(2)
+                if not live[k]:
+                    k = 1 - k
+                for _ in range(rng.choice([1, 1, 2, 3])):
+                    fld = next(its[k], None)
+                    if fld is None:
+                        live[k] = False
+                        break
+                    evs[k].append((fld.lr_is_eflr, fld.lr_type, fld.logical_data.bytes, fld.lr_is_encrypted))
+    except Exception as e:
+        ck.violation('lockstep_two_readers', 'raised', 'two readers stepped alternately raised %s: %s' % (type(e).__name__, e),
+                     dict(ck.base_witness(da, ma, 'lockstep'), other_file=db), exc=e)
+        return
+    rec.add('lockstep_events', len(evs[0]) + len(evs[1]))
+    ck.compare_events(evs[0], ma, da, 'lockstep(first of two readers)', monitor='lockstep_two_readers')
+    ck.compare_events(evs[1], mb, db, 'lockstep(second of two readers)', monitor='lockstep_two_readers')
+
+
+def scale_files(ctx, ck, rng):
+    """Sizes the random files do not reach: thousands of logical records in one file, and a record longer than 65535 bytes that
+    lies in five or more maximum-length visible records."""
+    from tdv.gen import dlis
+    # ---- many records
+    n = rng.randrange(1000, 2500)
+    lay = dlis.random_layout(rng)
+    lay.update(vr_cap=rng.choice([64, 200, 1000, 8192, 16384]), p_enc_padbit=0.0)
+    lrs = []
+    for i in range(n):
+        ln = rng.choice([0, 1, 2, 5, 12, 13, rng.randrange(0, 40)])
+        lrs.append(dlis.LR(rng.random() < 0.5, rng.choice([0, 1, 3, 5, 128, rng.randrange(256)]), struct.pack('>I', i) * (ln // 4) + bytes(ln % 4), False))
+    data, model = dlis.write_file(rng, lrs, layout=lay)
+    ck.check_file(data, model, 'scale-many-records', classes=['scale-file'], extra_history=True, late=rng.random() < 0.5)
+    # ---- a record longer than 65535 bytes
+    big = rng.randrange(65536, 140000)
+    lrs = dlis.random_records(rng, n=rng.randrange(0, 3), vr_cap=200, allow_encrypted=False)
+    enc = rng.random() < 0.2
+    if enc:
+        big += big % 2
+    body = bytearray(rng.getrandbits(8 * 4096).to_bytes(4096, 'big') * (big // 4096 + 1))[:big]
+    for k in range(0, big, 509):
+        body[k] = (k // 509) & 0xff          # position-identifying
+    lrs.insert(rng.randrange(len(lrs) + 1), dlis.LR(rng.random() < 0.5, rng.randrange(256), bytes(body), enc))
+    lrs += dlis.random_records(rng, n=rng.randrange(0, 3), vr_cap=200, allow_encrypted=False)
+    lay = dlis.random_layout(rng)
+    lay.update(vr_cap=rng.choice([16384, 16384, 8192, 16000]), seg_small=False, p_enc_padbit=rng.choice([0.0, 1.0]))
+    data, model = dlis.write_file_safe(rng, lrs, layout=lay)
+    ck.check_file(data, model, 'scale-long-record', classes=['scale-file'], extra_history=rng.random() < 0.5, late=rng.random() < 0.5)
 
 
 def boundary_files(ctx, ck, rng, n):
@@ -484,6 +591,8 @@ def run_shard(ctx, p):
     ck = Checker(ctx, File)
     label_sweep(ctx, ck, rng, p)
     boundary_files(ctx, ck, rng, 2 if ctx.tier == 'quick' else 40)
+    for _ in range(1 if ctx.tier == 'quick' else 6):
+        scale_files(ctx, ck, rng)
     random_files(ctx, ck, rng, p['n_random'])
     enumerated(ctx, ck, rng, p)
     for name, cnt in contracts.COUNTS.items():
